@@ -35,6 +35,11 @@ type BagConn struct {
 	MD5   string
 	Def   string
 	Extra []wl.KV // further connection-header fields (callerid, latching, ...)
+	// DataTopic: the "topic" field inside the connection header (the record's data). The format keeps it
+	// apart from the connection record's own topic, under which the messages are stored: a recorder that
+	// remaps or prefixes topics writes two different strings. Mode 0 same, 1 DataTopicValue, 2 field absent.
+	DataTopicMode  int    `json:",omitempty"`
+	DataTopicValue string `json:",omitempty"`
 }
 
 type BagMsg struct {
@@ -77,7 +82,12 @@ func bagRecord(fields [][]byte, data []byte) []byte {
 
 func (c *BagConn) header() []byte {
 	var h []byte
-	h = append(h, bagField("topic", []byte(c.Topic))...)
+	switch c.DataTopicMode {
+	case 0:
+		h = append(h, bagField("topic", []byte(c.Topic))...)
+	case 1:
+		h = append(h, bagField("topic", []byte(c.DataTopicValue))...)
+	}
 	h = append(h, bagField("type", []byte(c.Type))...)
 	h = append(h, bagField("md5sum", []byte(c.MD5))...)
 	h = append(h, bagField("message_definition", []byte(c.Def))...)
@@ -187,6 +197,10 @@ func genBag(t *rapid.T) BagCase {
 		md5 := rapid.SampledFrom([]string{"992ce8a1687cec8c8bd883ec73ca41d1", "aaaa", ""}).Draw(t, "md5")
 		cn := BagConn{ID: ids[i], Topic: rapid.SampledFrom([]string{"/chatter", "/a", "/a/b", "/tëst", ""}).Draw(t, "topic"), Type: ty, MD5: md5,
 			Def: "string data\n# def of " + ty + " " + md5 + "\n"}
+		if rapid.IntRange(0, 3).Draw(t, "data-topic?") == 0 {
+			cn.DataTopicMode = rapid.IntRange(1, 2).Draw(t, "data-topic-mode")
+			cn.DataTopicValue = rapid.SampledFrom([]string{"/scan", "/a", "", "/original/name"}).Draw(t, "data-topic")
+		}
 		if rapid.Bool().Draw(t, "extra-fields") {
 			cn.Extra = append(cn.Extra, wl.KV{K: "callerid", V: rapid.SampledFrom([]string{"/talker", "", "/x=y"}).Draw(t, "callerid")})
 			if rapid.Bool().Draw(t, "latching") {
@@ -288,6 +302,12 @@ func checkBag(c BagCase, st *stats.Collector) error {
 				return pk.Failf("channel", "message #%d precedes its channel", mi)
 			}
 			wantMeta := map[string]string{"topic": cn.Topic, "md5sum": cn.MD5}
+			switch cn.DataTopicMode {
+			case 1:
+				wantMeta["topic"] = cn.DataTopicValue
+			case 2:
+				delete(wantMeta, "topic")
+			}
 			for _, kv := range cn.Extra {
 				wantMeta[kv.K] = kv.V
 			}
